@@ -72,7 +72,7 @@ TimesSmall == << 1000, 1001, 1002, 2001, 2003 >>     \* the clock of the exhaust
 OriginsOne == << 1 >>
 OriginsTwo == << 2, 3 >>            \* same bucket
 OriginsSmall == << 1, 2, 3 >>          \* 2 and 3 share a bucket
-OriginsAll == << 1, 2, 3, 4, 5, 6 >>
+OriginsAll == << 1, 2, 3, 4, 5, 6, 7, 8 >>   \* 2/3 and 7/8 share a bucket and a length; 7/8 differ in the last two octets only
 Step(e, S2, v) == /\ R' = S2 /\ ev' = (IF Emit THEN e ELSE << >>) /\ bad' = bad \cup v
 Init == R = SapDead(0) /\ now = 1000 /\ ev = << >> /\ bad = {}
 DoCreate(ct, cci, fp) ==
